@@ -501,6 +501,12 @@ def applyDM (H rho : Mat) : Mat := Mat.mul (Mat.mul H rho) (Mat.dagger H)
 /-- `QutipState.overlap` for two density matrices: `Tr(A† B)`. -/
 def overlapDM (A B : Mat) : CQ := Mat.trace (Mat.mul (Mat.dagger A) B)
 
+/-- `⟨a|b⟩` for two kets (`a.dag() * b` in `QutipState.overlap`). -/
+def innerKet (A B : Mat) : CQ := (Mat.mul (Mat.dagger A) B).f 0 0
+
+/-- `QutipState.overlap` for two kets: `|⟨a|b⟩|²` (`np.abs(overlap) ** 2`). -/
+def overlapKet (A B : Mat) : Rat := (innerKet A B).normSq
+
 /-- `EnergySecondMoment.apply` on a density matrix: `h = H ρ H†`, `identity.expect(h)` = `Tr[1·HρH†]`. -/
 def secondMomentCodeDM (H rho : Mat) : CQ := expectDM (Mat.ident H.r) (applyDM H rho)
 
